@@ -49,9 +49,10 @@ theorem survivor (swr : Swr) (sc : Sched) (inp : Input) (hne : stopsEarly inp = 
     obtain ⟨pj, hpj, rfl⟩ := infos0_get_some hs0j
     obtain ⟨s, hs, hch, hk⟩ := grow.2 j sj1 hsj1
     obtain ⟨v', hv'⟩ := hk h vj hgj
-    have hrep : (reported pj).get h = some vj := by
-      have := hsubj h vj hgj; rwa [getInfo_scraping] at this
-    refine ⟨j, pj, s, vj, v', hpj, ?_, hrep, hs, ?_, hv', Or.inr ⟨h3, hvj⟩⟩
+    obtain ⟨vj0, hvj0, hrev⟩ := hsubj h vj hgj
+    have hrep : (reported pj).get h = some vj0 := by rwa [getInfo_scraping] at hvj0
+    have ht := hrev.times
+    refine ⟨j, pj, s, vj0, v', hpj, ?_, hrep, hs, ?_, hv', Or.inr ⟨h3, by omega⟩⟩
     · rw [← getInfo_changeable, ← hchj0]; exact hchj
     · rw [hch]; exact hchj
 
